@@ -14,10 +14,10 @@ import (
 
 type bitset []uint64
 
-func newBits(n int) bitset        { return make(bitset, (n+63)/64) }
-func (b bitset) has(i int) bool   { return b[i/64]&(1<<uint(i%64)) != 0 }
-func (b bitset) set(i int)        { b[i/64] |= 1 << uint(i%64) }
-func (b bitset) clone() bitset    { c := make(bitset, len(b)); copy(c, b); return c }
+func newBits(n int) bitset      { return make(bitset, (n+63)/64) }
+func (b bitset) has(i int) bool { return b[i/64]&(1<<uint(i%64)) != 0 }
+func (b bitset) set(i int)      { b[i/64] |= 1 << uint(i%64) }
+func (b bitset) clone() bitset  { c := make(bitset, len(b)); copy(c, b); return c }
 func (b bitset) or(o bitset) bool { // returns changed
 	ch := false
 	for i := range b {
